@@ -390,8 +390,11 @@ func ruleQueue(c *Ctx, rule string, minCap int64) {
 			ok = false
 			detail = "queue is not created by make(chan)"
 		} else if k, isC := constInt(mc.Size); !isC {
-			ok = false
-			detail = "queue capacity is not a constant (" + ex(mc.Size) + "): the backlog is not bounded by the code"
+			if minCap > 1 {
+				ok = false
+				detail = "queue capacity is not a constant (" + ex(mc.Size) + "): that at least " + fmt.Sprint(minCap) + " items can be queued is not decided by the code"
+			}
+			// a buffered channel is bounded whatever its (run-time) capacity: enough where only boundedness is required
 		} else {
 			capK = k
 		}
@@ -459,6 +462,8 @@ func ruleQueue(c *Ctx, rule string, minCap int64) {
 
 func runC11(c *Ctx) {
 	r := c.R
+	defer borrowRules(c, "C12", runC12, map[string]string{"R12.4": "R11.7"}, "a channel's writer must have ended before the transport is handed to a successor channel, or two writers interleave partial frames on it")
+	defer ruleCodecNoSharedWrites(c, "R11.8", "C11: concurrent Write* calls encode in the callers' goroutines through the one shared codec; each item on the wire is what one caller submitted")
 	r.NotDecided = append(r.NotDecided,
 		"exactly-once / FIFO as properties of executions under all interleavings",
 		"loss-freedom below 64 queued items under real scheduling (R11.3 + C13 are its code-shape part)")
@@ -854,6 +859,8 @@ func runC11(c *Ctx) {
 
 func runC10(c *Ctx) {
 	r := c.R
+	defer rulePeekLifetime(c, "R10.8", "C10: the frame event of a valid frame carries that frame's id and payload however the transport segmented it")
+	defer ruleCodecNoSharedWrites(c, "R10.9", "C10: a frame event on one channel never carries bytes that arrived on another")
 	r.NotDecided = append(r.NotDecided,
 		"the event order actually observed under real interleavings of k channels",
 		"'nothing more arrives after close' when the node itself is closed first (exempted by the statement)",
